@@ -137,13 +137,14 @@ struct CountingReader {
   size_t reads = 0;
   bool ended = false;
   bool fault = false;
-  explicit CountingReader(const std::string& str) : s(&str) {}
+  bool nul_is_end = true;   // JSON: the latch treats NUL as the end of input; MessagePack: NUL is data
+  explicit CountingReader(const std::string& str, bool nulEnds = true) : s(&str), nul_is_end(nulEnds) {}
   int read() {
     if (ended) fault = true;
     if (pos < s->size()) {
       reads++;
       int c = (unsigned char)(*s)[pos++];
-      if (c == 0) ended = true;   // Latch treats NUL as the end
+      if (c == 0 && nul_is_end) ended = true;   // Latch treats NUL as the end
       return c;
     }
     ended = true;
